@@ -95,6 +95,14 @@ type c04State struct {
 	// withScripts: verifications pass WithScripts next to WithTx
 	withScripts         bool
 	usedSpecialOutpoint bool
+	// sharePtr: places that hold the same script hold the same *bscript.Script object (one per party), the way a
+	// wallet that keeps one script per address builds its transactions
+	sharePtr bool
+	shared   map[int]*bscript.Script
+	// unrelated: between the parties' verifications the process (and the engine, if one is kept) also serves a caller
+	// who evaluates unrelated scripts, most of which fail in some particular way
+	unrelated bool
+	unrelN    int
 	// optOrder: how the verifier spells its flags (0 named options only; 1 a signature-policy WithFlags after them;
 	// 2 the same before them; 3 everything in one WithFlags). Options combine, so all four mean the same.
 	optOrder int
@@ -155,6 +163,20 @@ func (s *c04State) newUTXO(owner int) *c04UTXO {
 		c.Count("probe.inscription_utxo", 1)
 	}
 	return u
+}
+
+// scriptFor returns the script object to put into the draft: a fresh copy, or (sharePtr histories, plain P2PKH of
+// that party) the one object every place holding that script shares.
+func (s *c04State) scriptFor(party int, script []byte) *bscript.Script {
+	if !s.sharePtr || !sameBytes(script, p2pkh(s.parties[party].h160)) {
+		return scriptPtr(script)
+	}
+	if sp, ok := s.shared[party]; ok && sameBytes(*sp, script) {
+		s.c.Count("probe.one_script_object_in_two_places", 1)
+		return sp
+	}
+	s.shared[party] = scriptPtr(script)
+	return s.shared[party]
 }
 
 func (s *c04State) model() *models.CTx {
@@ -275,6 +297,14 @@ func (s *c04State) verify(tx *bt.Tx, i int, value uint64, script []byte, flag by
 	if eng == nil {
 		eng = interpreter.NewEngine()
 	}
+	if s.unrelated {
+		u := c04Unrelated[s.unrelN%len(c04Unrelated)]
+		s.unrelN++
+		_ = catch(func() {
+			_ = eng.Execute(interpreter.WithScripts(scriptPtr(u.lock), scriptPtr(u.unlock)), interpreter.WithFlags(u.flags))
+		})
+		s.c.Count("probe.unrelated_execution_before_verification", 1)
+	}
 	if pn := catch(func() { err = eng.Execute(opts...) }); pn != "" {
 		return false, "panic: " + pn
 	}
@@ -282,6 +312,23 @@ func (s *c04State) verify(tx *bt.Tx, i int, value uint64, script []byte, flag by
 		return false, err.Error()
 	}
 	return true, ""
+}
+
+// c04Unrelated: somebody else's scripts. Their outcomes do not matter here; what matters is that they leave nothing behind.
+var c04Unrelated = []struct {
+	unlock, lock []byte
+	flags        scriptflag.Flag
+}{
+	{[]byte{0x51}, []byte{0x63, 0x6a}, scriptflag.UTXOAfterGenesis},                                                                    // 1 | IF RETURN            (open conditional at the end)
+	{[]byte{0x51}, []byte{0x63, 0x6a, 0x67, 0x67}, scriptflag.UTXOAfterGenesis},                                                        // 1 | IF RETURN ELSE ELSE
+	{[]byte{0x00}, []byte{0x63, 0x6a, 0x68, 0x51}, scriptflag.UTXOAfterGenesis},                                                        // 0 | IF RETURN ENDIF 1
+	{[]byte{0x51}, []byte{0x6a}, scriptflag.Bip16 | scriptflag.VerifyStrictEncoding},                                                   // 1 | RETURN               (before genesis)
+	{[]byte{0x51}, []byte{0x6a}, scriptflag.UTXOAfterGenesis},                                                                          // 1 | RETURN               (after genesis)
+	{[]byte{0x05, 0xff, 0xff, 0xff, 0xff, 0x7f}, []byte{0x8b, 0x8b, 0x75, 0x51}, scriptflag.UTXOAfterGenesis},                          // long-number arithmetic
+	{[]byte{0x01, 0x01, 0x01, 0x02}, []byte{0xac}, scriptflag.UTXOAfterGenesis | scriptflag.EnableSighashForkID},                       // CHECKSIG without a transaction
+	{[]byte{0x51, 0x02, 0x51, 0x87}, append(append([]byte{0xa9, 0x14}, cryptoHash160([]byte{0x51, 0x87})...), 0x87), scriptflag.Bip16}, // a P2SH spend
+	{[]byte{0x51, 0x6b}, []byte{0x6c, 0x76, 0x7c, 0x75}, 0},                                                                            // alt-stack traffic
+	{[]byte{0x52}, []byte{0x76, 0x51, 0x98, 0x87}, scriptflag.UTXOAfterGenesis},                                                        // 2 | DUP 1 LSHIFT EQUAL   (in-place shift)
 }
 
 // checkAll is the invariant evaluated after every event.
@@ -412,6 +459,9 @@ func (w *c04World) Run(c *kernel.RunCtx) {
 	}
 	s.withScripts = c.Bool(1, 3)
 	s.optOrder = c.Pick(3, 1, 1, 1)
+	s.sharePtr = c.Bool(1, 3)
+	s.shared = map[int]*bscript.Script{}
+	s.unrelated = c.Bool(1, 3)
 	if c.Bool(1, 2) {
 		s.simple = &unlocker.Simple{}
 		s.getter = &unlocker.Getter{}
@@ -490,7 +540,7 @@ func (w *c04World) event(s *c04State, kind int) string {
 			return fmt.Sprintf("AddInput(append,p%d)", owner)
 		}
 		pos := c.Choose(nin + 1)
-		in := &bt.Input{PreviousTxOutIndex: u.vout, PreviousTxSatoshis: u.value, PreviousTxScript: scriptPtr(u.script), SequenceNumber: uint32(0xffffffff - c.Choose(3))}
+		in := &bt.Input{PreviousTxOutIndex: u.vout, PreviousTxSatoshis: u.value, PreviousTxScript: s.scriptFor(owner, u.script), SequenceNumber: uint32(0xffffffff - c.Choose(3))}
 		_ = in.PreviousTxIDAdd(displayID(u.txid))
 		tx.Inputs = append(tx.Inputs[:pos:pos], append([]*bt.Input{in}, tx.Inputs[pos:]...)...)
 		s.meta = append(s.meta[:pos:pos], append([]*c04Meta{md}, s.meta[pos:]...)...)
@@ -499,7 +549,8 @@ func (w *c04World) event(s *c04State, kind int) string {
 		if nout >= 6 {
 			return ""
 		}
-		o := &bt.Output{Satoshis: uint64(c.Choose(50000)), LockingScript: scriptPtr(p2pkh(s.parties[c.Choose(len(s.parties))].h160))}
+		payee := c.Choose(len(s.parties))
+		o := &bt.Output{Satoshis: uint64(c.Choose(50000)), LockingScript: s.scriptFor(payee, p2pkh(s.parties[payee].h160))}
 		if c.Bool(1, 5) {
 			o.LockingScript = scriptPtr(append([]byte{0x00, 0x6a}, c.Bytes(c.Choose(30))...))
 		}
